@@ -5,12 +5,13 @@ Oracle (R-MEM: a dictionary model of the variable state): a generated program P1
 state - DEFtype ranges, OPTION BASE, scalars of all four types (explicit and implicit sigils), arrays
 (numeric and string, DIMmed and default), heap and literal strings up to 255 bytes under a memory limit
 set by CLEAR ,n, DEF FN definitions, an error trap, event traps, a moved random sequence - and performs,
-from inside nested FOR / WHILE / GOSUB, one of
+from inside nested FOR / WHILE / GOSUB / an active error handler (before RESUME) / an event handler
+(before RETURN), one of
     CLEAR (in program / direct), RUN line (in program / direct), RUN "file", NEW (in program / direct),
     CHAIN, CHAIN ALL, CHAIN MERGE, CHAIN MERGE ALL (optionally with a start line and DELETE range)
 with random COMMON lists (explicit / DEFtype-resolved names, arrays, undefined names, repeats).
 Observation: what the continuing program prints (integer values and string lengths of every variable,
-then the NEXT / WEND / RETURN that closes the construct it was in), and afterwards public-API reads of
+then a NEW error trap that must work, then the NEXT / WEND / RETURN / RESUME that closes the construct it was in), and afterwards public-API reads of
 every variable and array plus small direct-mode probe statements (DIM of each array, FN call, an
 assignment through an implicit name, DIM for the base, RETURN, ERROR 77, RND); for a share of the
 RUN/CLEAR/NEW cases instead a history of OPTION BASE / DIM / ERASE / element accesses, which must give,
@@ -48,7 +49,8 @@ META = {
         'common_scalars_preserved', 'common_arrays_preserved', 'common_strings_preserved', 'non_common_cleared',
         'long_strings_in_state', 'memory_limited_states', 'closing_next_raised_error', 'closing_wend_raised_error',
         'def_fn_probed', 'deftype_probed', 'option_base_probed', 'trap_probed', 'rnd_probed', 'directed_cases',
-        'base_dim_erase_histories_replayed', 'history_with_subscript_error', 'history_with_duplicate_definition']},
+        'base_dim_erase_histories_replayed', 'history_with_subscript_error', 'history_with_duplicate_definition',
+        'reset_inside_error_handler', 'reset_inside_event_handler', 'closing_resume_raised_error']},
     'timeout': {'quick': 600, 'thorough': 7200},
 }
 
@@ -240,8 +242,18 @@ def gen_case(rng):
     c.rnd_moves = rng.randint(0, 3)
     c.randomize = rng.choice([None, None, 3, 77])
     # ---- context the action sits in (outer -> inner)
-    ctx = [rng.choice(['for', 'while', 'gosub']) for _ in range(rng.choice([0, 1, 1, 2, 3]))]
+    ctx = [rng.choice(['for', 'while', 'gosub', 'gosub', 'trap', 'event']) for _ in range(rng.choice([0, 1, 1, 2, 3]))]
+    # at most one active error handler and one event handler; events do not fire inside an error handler,
+    # so the event handler is entered first
+    for kind in ('trap', 'event'):
+        while ctx.count(kind) > 1:
+            ctx[len(ctx) - 1 - ctx[::-1].index(kind)] = 'gosub'
+    if 'trap' in ctx and 'event' in ctx and ctx.index('trap') < ctx.index('event'):
+        i, j = ctx.index('trap'), ctx.index('event')
+        ctx[i], ctx[j] = ctx[j], ctx[i]
     c.ctx = ctx
+    if 'trap' in ctx:
+        c.trap = True
     # ---- COMMON declarations
     commons_s, commons_a = set(), set()
     common_stmts = []
@@ -319,7 +331,9 @@ def gen_case(rng):
     # segments: main, then one per GOSUB level; each holds its openers
     segments = [[]]
     seg_closers = [[]]
+    seg_end = [None]          # what leaves the segment: RETURN / RESUME NEXT (None: main program)
     targets = [None]
+    c.key_event = False
     for k, kind in enumerate(ctx):
         if kind == 'for':
             v = 'I%d%%' % (k + 1)
@@ -334,7 +348,20 @@ def gen_case(rng):
             scalars[v] = 1
         else:
             t = 1000 + 100 * (len(segments) - 1)
-            segments[-1].append('GOSUB %d' % t)
+            if kind == 'gosub':
+                segments[-1].append('GOSUB %d' % t)
+                seg_end.append('RETURN')
+            elif kind == 'trap':
+                # the rest runs inside an active error handler (no RESUME yet)
+                segments[-1].append('ON ERROR GOTO %d' % t)
+                segments[-1].append('ERROR 5')
+                seg_end.append('RESUME NEXT')
+            else:
+                # the rest runs inside an event handler (no RETURN yet); the key arrives while the program idles
+                segments[-1].append('ON KEY(1) GOSUB %d:KEY(1) ON' % t)
+                segments[-1].append('WHILE 1:WEND')
+                seg_end.append('RETURN')
+                c.key_event = True
             segments[-1].append('PRINT "RETURNED":END')
             segments.append([])
             seg_closers.append([])
@@ -362,6 +389,7 @@ def gen_case(rng):
             row = []
     if row:
         obs.append('PRINT ' + ';'.join(row))
+    obs.extend(['PRINT "#T"', 'ON ERROR GOTO 8000', '@trapline', 'ERROR 7', 'PRINT "T2"', 'ON ERROR GOTO 0'])
     obs.append('PRINT "#C"')
     # ---- the action
     c.p2 = None
@@ -405,9 +433,9 @@ def gen_case(rng):
         if k == len(segments) - 1 and in_place:
             segments[k].extend(obs)
             if k > 0:
-                tail.append('RETURN')
+                tail.append(seg_end[k])
             if tail:
-                c.closer = {'NEXT': 'next', 'WEND': 'wend', 'RETURN': 'return'}[tail[0]]
+                c.closer = {'NEXT': 'next', 'WEND': 'wend', 'RETURN': 'return', 'RESUME NEXT': 'resume'}[tail[0]]
             else:
                 tail = ['END']
             segments[k].append('@closer')
@@ -434,8 +462,8 @@ def gen_case(rng):
         n += 10
     probe = None
     if not in_place and c.action not in ('new', 'new_direct', 'clear_direct'):
-        closer = rng.choice([None, 'NEXT', 'WEND', 'RETURN'])
-        c.closer = closer.lower() if closer else None
+        closer = rng.choice([None, 'NEXT', 'WEND', 'RETURN', 'RESUME NEXT', 'RESUME'])
+        c.closer = {'RESUME NEXT': 'resume', 'RESUME': 'resume'}.get(closer, closer.lower() if closer else None)
         probe = []
         n = start
         for t in obs + ['@closer', closer or 'END', 'PRINT "CLOSED":END']:
@@ -443,27 +471,33 @@ def gen_case(rng):
             n += 10
         if c.p2name is None:
             numbered.extend(probe)
+    numbered.append([8000, 'PRINT "NEWTRAP";ERR;ERL:RESUME NEXT'])
     numbered.append([9000, 'PRINT "OLDTRAP";ERR:END'])
     numbered.append([9100, 'PRINT "OLDEVENT":RETURN'])
+    if probe is not None and c.p2name is not None:
+        probe.append([8000, 'PRINT "NEWTRAP";ERR;ERL:RESUME NEXT'])
 
     def finish(rows):
-        out, closer_line = [], None
-        mark = False
+        out, marks = [], {}
+        mark = None
         for n, t in rows:
-            if t == '@closer':
-                mark = True
+            if t in ('@closer', '@trapline'):
+                mark = t
                 continue
             if mark:
-                closer_line = n
-                mark = False
+                marks[mark] = n
+                mark = None
             out.append('%d %s' % (n, t))
             assert len(out[-1]) < 250
-        return out, closer_line
+        return out, marks
     numbered.sort(key=lambda x: x[0])
-    c.p1, line1 = finish(numbered)
-    c.closer_line = line1
+    c.p1, marks = finish(numbered)
     if probe is not None and c.p2name is not None:
-        c.p2, c.closer_line = finish(probe)
+        c.p2, marks = finish(probe)
+    c.closer_line = marks.get('@closer')
+    c.trap_line = marks.get('@trapline')
+    # the F1 key that starts the event handler arrives while the program idles in WHILE 1:WEND
+    c.key_at = 4 * len(c.p1) + 120 if c.key_event else None
     # ---- expected program output
     if c.action in ('new', 'new_direct', 'clear_direct'):
         c.expected_out = b''
@@ -474,8 +508,10 @@ def gen_case(rng):
         while k < len(toks):
             exp += b''.join((b'-%d ' % -v) if v < 0 else (b' %d ' % v) for v in toks[k:k + 6]) + b'\r\n'
             k += 6
+        exp += b'#T\r\nNEWTRAP 7  %d \r\nT2\r\n' % c.trap_line
         exp += b'#C\r\n'
-        msg = {'next': b'NEXT without FOR', 'wend': b'WEND without WHILE', 'return': b'RETURN without GOSUB'}
+        msg = {'next': b'NEXT without FOR', 'wend': b'WEND without WHILE', 'return': b'RETURN without GOSUB',
+               'resume': b'RESUME without error'}
         if c.closer:
             exp += msg[c.closer] + b' in %d' % c.closer_line + E
         c.expected_out = exp
@@ -528,6 +564,7 @@ def run_case(c, res, harness, rnd_ref):
                 num, _, text = l.partition(' ')
                 dry.append('%s PRINT FRE(""):END' % num if text == c.action_text else l)
             with harness.Box(budget=6000) as box:
+                _arm_key(c, box, harness)
                 out = box.run([l.encode('ascii') for l in dry], budget=6000)
             try:
                 used = 65000 - int(out.split()[0])
@@ -545,6 +582,7 @@ def run_case(c, res, harness, rnd_ref):
             if c.p2:
                 with open(box.path(c.p2name + '.BAS'), 'wb') as f:
                     f.write('\r\n'.join(c.p2).encode('ascii') + b'\r\n\x1a')
+            _arm_key(c, box, harness)
             out = box.run([l.encode('ascii') for l in c.p1], budget=6000)
             if c.direct_action is not None:
                 if out != b'':
@@ -565,6 +603,10 @@ def run_case(c, res, harness, rnd_ref):
                 return
             res.case(key, nontrivial=c.nontrivial_state)
             res.count('action_' + c.action)
+            if 'trap' in c.ctx:
+                res.count('reset_inside_error_handler')
+            if 'event' in c.ctx:
+                res.count('reset_inside_event_handler')
             if c.mem:
                 res.count('memory_limited_states')
             if c.long_strings:
@@ -577,6 +619,11 @@ def run_case(c, res, harness, rnd_ref):
     except harness.Internal as e:
         res.case(key)
         res.violation(e.key, str(e), case)
+
+
+def _arm_key(c, box, harness):
+    if getattr(c, 'key_at', None):
+        box.stepper.schedule[c.key_at] = [harness.key_event(u'\0;', harness.scancode.F1)]
 
 
 def _check_program_output(c, out, viol, res):
@@ -593,6 +640,16 @@ def _check_program_output(c, out, viol, res):
         return
     head, sep, tail = out.partition(b'#C\r\n')
     ehead, _, etail = exp.partition(b'#C\r\n')
+    if b'#T\r\n' in ehead:
+        # the section in which a NEW error trap is set up and used
+        head, tsep, tsec = head.partition(b'#T\r\n')
+        ehead, _, etsec = ehead.partition(b'#T\r\n')
+        if not tsep and not sep and head.startswith(b'#V\r\n') and b'#T' in out:
+            tsec = out.partition(b'#T\r\n')[2]
+        if tsec != etsec and (tsep or b'#T\r\n' in out):
+            viol('new-error-trap-does-not-work', 'after the reset ON ERROR GOTO / ERROR 7 / RESUME NEXT printed %r, expected %r'
+                 % (out.partition(b'#T\r\n')[2][:120], etsec))
+            return
     if not out.startswith(exp[:4]) or not sep:
         viol('program-did-not-continue-as-expected', 'output %r, expected %r' % (out[:200], exp[:200]))
         return
@@ -614,7 +671,8 @@ def _check_program_output(c, out, viol, res):
         else:
             viol('program-values-garbled', 'output %r, expected %r' % (head[:200], ehead[:200]))
     if tail != etail:
-        what = {'next': 'for-stack-survives', 'wend': 'while-stack-survives', 'return': 'gosub-stack-survives', None: 'program-end-differs'}[c.closer]
+        what = {'next': 'for-stack-survives', 'wend': 'while-stack-survives', 'return': 'gosub-stack-survives',
+                'resume': 'error-handler-state-survives', None: 'program-end-differs'}[c.closer]
         viol(what, 'after the reset the closing %s printed %r, expected %r' % ((c.closer or 'END').upper(), tail[:120], etail[:120]))
 
 
@@ -719,6 +777,10 @@ def _check_api(c, box, viol, res, harness, rnd_ref):
         res.count('option_base_probed')
         if out != b'' or len(got) != 3:
             viol('option-base-survives', 'DIM ZB9%%(2) after the reset gives %d elements (%r)' % (len(got), out))
+    # a handler that was active must be forgotten
+    out = box.ex(b'RESUME')
+    if out != b'RESUME without error' + E:
+        viol('error-handler-state-survives', 'RESUME in direct mode after the reset: %r' % out[:120])
     # subroutine stack
     out = box.ex(b'RETURN')
     if out != b'RETURN without GOSUB' + E:
